@@ -13,6 +13,7 @@ import Preflate.Props.C05
 import Preflate.Proofs.PublicTotal
 import Preflate.Proofs.HuffCalcT
 import Preflate.Proofs.ChainsSafePublic
+import Preflate.Proofs.ChainsSafeDecPublic
 namespace Preflate
 
 /-- the complete parameter estimator reaches none of its panic sites on anything the parser can
@@ -79,6 +80,18 @@ theorem public_match_finder_safe (d : List UInt8) (pr : Parsed) (hp : parse d = 
     (he : Est.estimate pr.plain pr.blocks = .ok p) :
     Chains.encStreamChk p pr.plain pr.blocks = .ok () :=
   Proofs.public_encStreamChk_ok d pr hp p he
+
+/-- THE RECONSTRUCTION SIDE on corrections a build actually produced (Model/ChainsSafeDec.lean mirrors
+    `recreate_block`: `predict_token`, `repredict_reference`, `hop_match` with the DECODED length,
+    `PreflateTokenReference::new`, `cur_char`, the per-byte stored path): replaying the corrections that
+    the analysis of what the parser returned produced, under the estimator's own parameters, reaches no
+    panic site of the match finder or hash chains. (On damaged corrections `hop_match` with a decoded
+    length below 3 does panic in the code — outside every property, recorded as an observation.) -/
+theorem public_reconstruction_safe (d : List UInt8) (pr : Parsed) (hp : parse d = .ok pr) (p : Params)
+    (he : Est.estimate pr.plain pr.blocks = .ok p) (ops : List Op)
+    (h : encStream (Chains.pred p) pr.plain pr.blocks pr.eofPadding = .ok ops) :
+    Chains.decStreamChk p pr.plain ops = .ok () :=
+  Proofs.public_decStreamChk_ok d pr hp p he ops h
 
 /-- ALL byte strings, either verify setting: Ok or Err -/
 theorem public_outcomes (verify : Bool) (d : List UInt8) :
